@@ -15,6 +15,7 @@ from fractions import Fraction
 from . import c08_docs as docs
 from . import c08_codec as codec
 from . import c08_classes as classes
+from . import c08_refs as refs
 from .common import Spec, Driver, GEN, write_if_changed
 
 # ---------------------------------------------------------------------------------------------
@@ -293,6 +294,17 @@ def gen_chna_raw(rng, n):
     return out
 
 
+def copy_tracks(adm):
+    """an ADM with private (shallow) copies of the audioTrackUIDs of adm, sharing the referenced elements"""
+    import copy
+    from ear.fileio.adm.adm import ADM
+
+    a = ADM()
+    for t in adm.audioTrackUIDs:
+        a.addAudioTrackUID(copy.copy(t))
+    return a
+
+
 # ---------------------------------------------------------------------------------------------
 
 
@@ -452,6 +464,11 @@ class C08(Spec):
         self._corr_handlers4(ctx, drv, rng, 40 if q else 1500)
         self._corr_classes(ctx, drv, rng, 8 if q else 150, 2 if q else 4)
         ctx.notes.append("correspondence seconds: round-4 handlers + class level %.1f" % (time.time() - t4))
+        t5 = time.time()
+        self._corr_refs(ctx, drv, rng, 45 if q else 1200)
+        self._corr_transfer(ctx, drv, rng, 45 if q else 1200)
+        self._corr_chunk(ctx, drv, rng, 120 if q else 3000)
+        ctx.notes.append("correspondence seconds: round-5 id map / reference resolution / CHNA transfer %.1f" % (time.time() - t5))
         ctx.notes.append("correspondence seconds: times %.1f, ids %.1f, chna %.1f, combinators %.1f (started %.1f s "
                          "after check start)" % (t1 - t0, t2 - t1, t3 - t2, time.time() - t3, t0 - ctx.t0))
 
@@ -934,6 +951,240 @@ class C08(Spec):
                 self._hit_capped(ctx, "element is not a fixed point of its own parser / generator", {"class": nm, "tree": repr(t)[:3000]},
                         {"regenerated": repr(want)[:3000]}, ["c08-element-fixed-point-" + cls])
 
+    # ---- round 5: id map, reference resolution, CHNA <-> audioTrackUID transfer --------------------
+    def _corr_refs(self, ctx, drv, rng, n):
+        """real `ADM` (addAudio… of the elements xml.py parsed, IDRef attributes pending, a subset of private copies of
+        the common definitions in front) + injected id-level faults: real `lazy_lookup_references` / `lookup_element`
+        vs Earverif.AdmRefs — resolved structure as oid graphs, or the error kind"""
+        R = refs
+        lines, reals, meta = [], [], []
+        for i in range(n):
+            seed, version, size = rng.randrange(10 ** 9), 1 + (i % 2), rng.choice([1, 2, 3])
+            with warnings.catch_warnings():
+                warnings.simplefilter("ignore")
+                adm0, _ = docs.make_doc(seed, version, size)
+                axml = R.axml_of(adm0)
+                fault = R.FAULTS[i % len(R.FAULTS)] if i < 2 * len(R.FAULTS) else rng.choice(R.FAULTS)
+                adm = R.resolved_doc(rng, axml) if fault == "already-resolved" else R.unresolved_doc(rng, axml)
+                applied = R.inject(rng, adm, fault)
+                if rng.random() < 0.25:
+                    applied += "+" + R.inject(rng, adm, rng.choice(R.FAULTS[2:-1]))
+            if not R.ascii_ids(adm):
+                ctx.count("corr:refs:skipped(non-ascii-id)")
+                continue
+            oids = R.Oids()
+            # lookup_element on the document as it is (before the duplicate pass): existing, unknown and case-changed keys
+            ids = [e.id for e in adm.elements if e.id is not None]
+            for key in [rng.choice(ids), rng.choice(ids).lower(), "AP_0001FFFF"] if ids else []:
+                lines.append(R.lookup_line(adm, key, oids))
+                try:
+                    reals.append(str(oids(adm.lookup_element(key))))
+                except KeyError:
+                    reals.append("E keyError")
+                meta.append(("al", seed, version, size, applied, key))
+            lines.append(R.describe(adm, oids))
+            reals.append(R.real_outcome(adm, oids))
+            meta.append(("ar", seed, version, size, applied, None))
+        outs = drv.run(lines)
+        for m, r, me in zip(outs, reals, meta):
+            op, seed, version, size, applied, key = me
+            inp = {"generator": "harness.c08_docs.make_doc + harness.c08_refs.unresolved_doc/inject", "doc_seed": seed,
+                   "version": version, "size": size, "fault": applied}
+            if op == "al":
+                ctx.count("corr:lookup_element:" + ("found" if r[0] != "E" else "KeyError"))
+                ctx.case(("al", seed, version, size, applied, key), True)
+                if m != r:
+                    ctx.disagree("ADM.lookup_element vs Earverif.AdmRefs.lookup", dict(inp, key=key), m, r)
+                else:
+                    ctx.validated()
+                continue
+            pm = R.parse_model_outcome(m)
+            outcome = "resolved" if r[0] == "ok" else r[1]
+            ctx.count("corr:refs:%s=%s" % (applied, outcome))
+            ctx.case(("ar", seed, version, size, applied), True,
+                     sample={"lazy_lookup_references": inp, "outcome": outcome} if applied != "none" else None)
+            if pm != r:
+                ctx.disagree("ADM.lazy_lookup_references vs Earverif.AdmRefs.lazyLookupReferences", inp,
+                             repr(pm)[:600], repr(r)[:600])
+            else:
+                ctx.validated()
+            # direct predicates at ADM level: same-class duplicate / dangling reference alone in a document
+            if applied in ("dup-same-class", "dup-same-class-case") and outcome != "admIDError":
+                ctx.hit("a repeated id within one class is not rejected with AdmIDError", inp, {"outcome": outcome},
+                        ["c08-duplicate-id-accepted"])
+            if applied == "dangling" and outcome != "keyError":
+                ctx.hit("a dangling reference is not rejected with KeyError", inp, {"outcome": outcome},
+                        ["c08-dangling-ref-accepted"])
+            if applied == "dup-cross-class":
+                ctx.count("excluded-point:same-id-in-two-classes=" + ("not-rejected" if outcome != "admIDError" else "rejected"))
+            if applied == "wrong-class" and outcome == "resolved":
+                ctx.count("excluded-point:reference-to-element-of-another-class=resolved-silently")
+            if applied == "dup-shadow-common" and outcome != "admIDError":
+                ctx.count("excluded-point:non-common-element-with-the-id-of-a-common-definition=overrides(warning)")
+
+    def _corr_transfer(self, ctx, drv, rng, n):
+        """real populate_chna_chunk / load_chna_chunk (both directions, CHNA-only documents, v1 AT_ and v2 AC_
+        references, track UIDs with / without index and references, edited rows) vs Earverif.ChnaTransfer: rows,
+        resulting audioTrackUID records, error kinds"""
+        R = refs
+        lines, reals, meta = [], [], []
+        for i in range(n):
+            seed, version, size = rng.randrange(10 ** 9), 1 + (i % 2), rng.choice([1, 2, 3])
+            with warnings.catch_warnings():
+                warnings.simplefilter("ignore")
+                if i % 6 == 5:
+                    adm0, _ = docs.make_chna_only_doc(seed)
+                    axml, kind = None, "chna-only"
+                else:
+                    adm0, _ = docs.make_doc(seed, version, size)
+                    axml, kind = R.axml_of(adm0), "doc"
+                if not all(t.id.isascii() for t in adm0.audioTrackUIDs):
+                    continue
+                pm, rows = R.real_populate(adm0)
+                inp = {"generator": "harness.c08_docs." + ("make_chna_only_doc" if axml is None else "make_doc"),
+                       "doc_seed": seed, "version": version, "size": size}
+                lines.append("cp " + R.tracks_str(adm0.audioTrackUIDs)); reals.append(pm)
+                meta.append(("populate_chna_chunk", inp, "as-generated"))
+                if rows is None:
+                    continue
+                # populate on a damaged copy: index missing / no reference / both references
+                dmg = copy_tracks(adm0)
+                how = rng.choice(["no-index", "no-format", "both-formats"])
+                if dmg.audioTrackUIDs:
+                    t = rng.choice(dmg.audioTrackUIDs)
+                    if how == "no-index":
+                        t.trackIndex = None
+                    elif how == "no-format":
+                        t.audioTrackFormat = t.audioChannelFormat = None
+                    elif adm0.audioTrackFormats and adm0.audioChannelFormats:
+                        t.audioTrackFormat, t.audioChannelFormat = adm0.audioTrackFormats[0], adm0.audioChannelFormats[0]
+                    lines.append("cp " + R.tracks_str(dmg.audioTrackUIDs)); reals.append(R.real_populate(dmg)[0])
+                    meta.append(("populate_chna_chunk", inp, how))
+                extra = [r[2] for r in rows] + [r[3] for r in rows if r[3]]
+                fresh = R.resolved_doc(rng, axml, extra)
+                te = R.edit_tracks(rng, fresh, R.TRACK_EDITS[i % len(R.TRACK_EDITS)] if i < 2 * len(R.TRACK_EDITS)
+                                   else rng.choice(R.TRACK_EDITS))
+                rows2, re_ = R.edit_rows(rng, fresh, rows, R.ROW_EDITS[(i // 2) % len(R.ROW_EDITS)]
+                                         if i < 2 * len(R.ROW_EDITS) else rng.choice(R.ROW_EDITS))
+                if te in ("preset-index", "preset-other-index"):
+                    byuid = {r[1].upper(): r[0] for r in rows2}
+                    for t in fresh.audioTrackUIDs:
+                        if t.id.upper() in byuid and rng.random() < 0.7:
+                            t.trackIndex = max(1, byuid[t.id.upper()] + (1 if te == "preset-other-index" and rng.random() < 0.4 else 0))
+                line = "cl %s %s %s" % (R.others_str(fresh), R.tracks_str(fresh.audioTrackUIDs), R.rows_str(rows2))
+                lines.append(line); reals.append(R.real_load(fresh, rows2))
+                meta.append(("load_chna_chunk", inp, "%s/tracks:%s/rows:%s" % (kind, te, re_)))
+                # validate_trackIndex on the loaded document
+                if reals[-1].startswith("ok"):
+                    nch = rng.choice([0, 1, 2, 8, 65535, max([t.trackIndex or 0 for t in fresh.audioTrackUIDs] + [0])])
+                    lines.append("cv %d %s" % (nch, R.tracks_str(fresh.audioTrackUIDs)))
+                    reals.append(R.real_validate(fresh, nch))
+                    meta.append(("validate_trackIndex", inp, "channels=%d" % nch))
+        # guess_track_indices on id-only documents
+        from ear.fileio.adm.adm import ADM
+        from ear.fileio.adm.elements import AudioTrackUID
+        hexd = "0123456789abcdefABCDEF"
+        for i in range(max(12, n // 3)):
+            a = ADM()
+            ids = []
+            for _ in range(rng.randint(1, 4)):
+                k = rng.random()
+                u = "ATU_" + "".join(rng.choice(hexd) for _ in range(8))
+                if k < 0.1: u = u[:rng.randint(0, 11)]
+                elif k < 0.2: u += rng.choice(["\n", "0", "\n\n", " "])
+                elif k < 0.3: u = rng.choice(["atu_00000001", "ATU_0000000g", "XATU_00000001", "ATU_00000000", "ATU-00000001"])
+                ids.append(u)
+                a.addAudioTrackUID(AudioTrackUID(id=u, trackIndex=rng.choice([None] * 9 + [3])))
+            lines.append("cg " + R.tracks_str(a.audioTrackUIDs)); reals.append(R.real_guess(a))
+            meta.append(("guess_track_indices", {"audioTrackUID_ids": ids}, "ids"))
+        outs = drv.run(lines)
+        for m, r, (fn, inp, what) in zip(outs, reals, meta):
+            res = r.split()[0] if r.startswith("ok") else r[2:]
+            ctx.count("corr:%s:%s=%s" % (fn, what if fn in ("populate_chna_chunk",) else what.split("/")[0], res))
+            if fn == "load_chna_chunk":
+                for part in what.split("/")[1:]:
+                    ctx.count("corr:load_chna_chunk:%s" % part)
+            ctx.case((fn, repr(inp), what), True,
+                     sample={fn: inp, "scenario": what, "outcome": res} if fn == "load_chna_chunk" and "none" not in what else None)
+            if m != r:
+                ctx.disagree("%s vs Earverif.ChnaTransfer" % fn, dict(inp, scenario=what), m[:500], r[:500])
+            else:
+                ctx.validated()
+
+    def _corr_chunk(self, ctx, drv, rng, n):
+        """the table part of the chunk: ChnaChunk.asByteArray (numTracks / numUIDs) and Bw64Reader._read_chna_chunk"""
+        R = refs
+        lines, reals, meta = [], [], []
+        hexd = "0123456789ABCDEF"
+        rh = lambda k: "".join(rng.choice(hexd) for _ in range(k))
+        for i in range(n):
+            rows = []
+            for _ in range(rng.choice([0, 1, 1, 2, 3, 5, 8])):
+                idx = rng.choice([1, 1, 2, 2, 3, 255, 256, 65535, rng.randint(0, 65535)])
+                ref = ("AT_" + rh(8) + "_" + rh(2)) if rng.random() < 0.5 else ("AC_" + rh(8))
+                if rng.random() < 0.05: ref = ref[:-1]
+                rows.append((idx, "ATU_" + rh(8), ref, None if rng.random() < 0.3 else "AP_" + rh(8)))
+            real = R.real_chunk_bytes(rows)
+            lines.append("cc " + R.rows_str(rows)); reals.append(real); meta.append(("ChnaChunk.asByteArray", rows))
+            if real not in ("E", "-") and not real.startswith("X"):
+                data = bytes.fromhex(real)
+                k = rng.random()
+                if k < 0.15:   # wrong numTracks
+                    data = struct.pack("<H", (struct.unpack("<H", data[:2])[0] + rng.choice([1, 65535])) % 65536) + data[2:]
+                elif k < 0.3:  # announced table longer than the chunk
+                    data = data[:2] + struct.pack("<H", len(rows) + rng.randint(1, 3)) + data[4:]
+                elif k < 0.4 and rows:  # announced table shorter
+                    data = data[:2] + struct.pack("<H", len(rows) - 1) + data[4:]
+                elif k < 0.5:  # truncated
+                    data = data[:2 * rng.randint(0, len(data) // 2)]  # (even: no RIFF pad byte after the chunk)
+                lines.append("cx " + (data.hex() or "-")); reals.append(R.real_read_chunk(data))
+                meta.append(("_read_chna_chunk", data.hex()))
+        outs = drv.run(lines)
+        for m, r, (fn, inp) in zip(outs, reals, meta):
+            ctx.count("corr:%s:%s" % (fn, "table" if not r.startswith("E") else r.replace(" ", "-")))
+            ctx.case((fn, repr(inp)), True)
+            if r.startswith("X:UnicodeDecodeError"):
+                continue
+            if m != r:
+                ctx.disagree("%s vs Earverif.ChnaTransfer" % fn, repr(inp)[:400], m[:300], r[:300])
+            else:
+                ctx.validated()
+
+    def _search_refs(self, ctx, n_transfer, n_dup, n_dangling):
+        """direct predicates (real code only): CHNA transfer round trip, duplicate ids always rejected, dangling
+        references always rejected with KeyError"""
+        rng = ctx.rng
+        for i in range(n_transfer):
+            job = (rng.randrange(10 ** 9), 1 + (i % 2), rng.choice([1, 2, 3]))
+            inp = {"generator": "harness.c08_docs.make_doc", "doc_seed": job[0], "version": job[1], "size": job[2]}
+            ctx.case(("transfer",) + job, True)
+            ctx.count("search:chna-transfer-roundtrip:documents")
+            for tag, det in refs.predicate_transfer(*job):
+                self._hit_capped(ctx, "CHNA <-> audioTrackUID transfer: " + tag, inp, det, ["c08-" + tag])
+        for i in range(max(4, n_transfer // 4)):
+            seed = rng.randrange(10 ** 9)
+            ctx.case(("chna-only-transfer", seed), True)
+            ctx.count("search:chna-only-transfer:documents")
+            for tag, det in refs.predicate_chna_only(seed):
+                self._hit_capped(ctx, "CHNA-only document: " + tag,
+                                 {"generator": "harness.c08_docs.make_chna_only_doc", "doc_seed": seed}, det, ["c08-" + tag])
+        for i in range(n_dup):
+            job = (rng.randrange(10 ** 9), 1 + (i % 2), rng.choice([1, 2]))
+            inp = {"generator": "harness.c08_refs.predicate_duplicate", "doc_seed": job[0], "version": job[1], "size": job[2]}
+            fails, how = refs.predicate_duplicate(*job)
+            ctx.case(("dup",) + job, True)
+            ctx.count("search:duplicate-id(%s):documents" % how)
+            for tag, det in fails:
+                self._hit_capped(ctx, "repeated id: " + tag, inp, det, ["c08-" + tag])
+        for i in range(n_dangling):
+            job = (rng.randrange(10 ** 9), 1 + (i % 2), rng.choice([1, 2]))
+            inp = {"generator": "harness.c08_refs.predicate_dangling", "doc_seed": job[0], "version": job[1], "size": job[2]}
+            fails, kind = refs.predicate_dangling(*job)
+            ctx.case(("dangling",) + job, True)
+            ctx.count("search:dangling-reference(%s):documents" % kind)
+            for tag, det in fails:
+                self._hit_capped(ctx, "dangling reference: " + tag, inp, det, ["c08-" + tag])
+
     # ---- search: documents through the real pipeline -------------------------------------------
     def search(self, ctx, deep):
         rng = ctx.rng
@@ -971,7 +1222,74 @@ class C08(Spec):
             ctx.case(job, True)
         for job in jobs[:3]:
             ctx.case(("sample",) + job, False, sample={"document": {"kind": job[0], "doc_seed": job[1], "version": job[2], "size": job[3]}})
+        if thorough:
+            self._search_refs(ctx, 400, 250, 250)
+        else:
+            self._search_refs(ctx, 36 if deep else 18, 30 if deep else 14, 30 if deep else 14)
+        ctx.notes.append("id / reference / CHNA-transfer predicates finished %.1f s after check start" % (time.time() - ctx.t0))
         self._excluded_points(ctx)
+        self._excluded_points_refs(ctx)
+
+    def _excluded_points_refs(self, ctx):
+        """points outside the hypotheses of the round-5 theorems, evaluated on the real code and recorded"""
+        from ear.fileio.adm.adm import ADM
+        from ear.fileio.adm.chna import load_chna_chunk, validate_trackIndex
+        from ear.fileio.adm.elements import AudioChannelFormat, AudioPackFormat, AudioTrackUID, TypeDefinition
+        from ear.fileio.bw64.chunks import AudioID, ChnaChunk
+
+        def outcome(fn):
+            try:
+                with warnings.catch_warnings():
+                    warnings.simplefilter("ignore")
+                    return fn()
+            except Exception as e:
+                return "raises-" + type(e).__name__
+
+        def base():
+            a = ADM()
+            a.addAudioChannelFormat(AudioChannelFormat(id="AC_00031001", audioChannelFormatName="c", type=TypeDefinition.Objects))
+            a.addAudioPackFormat(AudioPackFormat(id="AP_00031001", audioPackFormatName="p", type=TypeDefinition.Objects))
+            return a
+
+        def lower_prefix():
+            a = base(); load_chna_chunk(a, ChnaChunk([AudioID(1, "ATU_00000001", "ac_00031001", None)]))
+            t = a.audioTrackUIDs[0]
+            return "channel-format-stored-as-audioTrackFormat" if t.audioTrackFormat is not None else "as-channel"
+
+        def index_zero():
+            a = base(); load_chna_chunk(a, ChnaChunk([AudioID(0, "ATU_00000001", "AC_00031001", None)]))
+            validate_trackIndex(a, 1)
+            return "accepted(trackIndex=%r)" % a.audioTrackUIDs[0].trackIndex
+
+        def same_uid_two_rows():
+            a = base()
+            a.addAudioChannelFormat(AudioChannelFormat(id="AC_00031002", audioChannelFormatName="c", type=TypeDefinition.Objects))
+            a.addAudioTrackUID(AudioTrackUID(id="ATU_00000001"))
+            load_chna_chunk(a, ChnaChunk([AudioID(1, "ATU_00000001", "AC_00031001", None),
+                                          AudioID(1, "ATU_00000001", "AC_00031002", None)]))
+            return "last-row-wins(%s)" % a.audioTrackUIDs[0].audioChannelFormat.id
+
+        def ref_wrong_class():
+            a = base(); load_chna_chunk(a, ChnaChunk([AudioID(1, "ATU_00000001", "AP_00031001", None)]))
+            return "pack-stored-as-" + ("audioTrackFormat" if a.audioTrackUIDs[0].audioTrackFormat is not None else "?")
+
+        def cross_class_dup():
+            a = base()
+            a.addAudioPackFormat(AudioPackFormat(id="AC_00031001", audioPackFormatName="p", type=TypeDefinition.Objects))
+            a.lazy_lookup_references()
+            return "accepted;lookup->" + type(a["AC_00031001"]).__name__
+
+        def lookup_before_dedup():
+            a = base()
+            a.addAudioChannelFormat(AudioChannelFormat(id="ac_00031001", audioChannelFormatName="second", type=TypeDefinition.Objects))
+            return "first-of-two(%s)" % a["AC_00031001"].audioChannelFormatName
+
+        for name, fn in [("chna-ref-with-lower-case-ac-prefix", lower_prefix), ("chna-trackIndex-0", index_zero),
+                         ("chna-two-rows-same-known-uid-different-refs", same_uid_two_rows),
+                         ("chna-ref-to-element-of-another-class", ref_wrong_class),
+                         ("same-id-in-two-classes(lazy_lookup_references)", cross_class_dup),
+                         ("lookup_element-before-duplicate-pass", lookup_before_dedup)]:
+            ctx.count("excluded-point:%s=%s" % (name, outcome(fn)))
 
     def _excluded_points(self, ctx):
         """degenerate values that are outside the generator (see `assumptions`): evaluated on the real code once
